@@ -834,6 +834,126 @@ func c14r5(c *core.Ctx) {
 	}
 }
 
+// retainsParamOf: the callee may keep the struct it receives for literal argument lit (stores the parameter, or a
+// field of it, into a field, an element or a literal, returns it, or passes it on). Conservative: only a callee that
+// merely reads the parameter's fields into calls and locals counts as not retaining.
+func retainsParamOf(m *core.Model, cal *core.Func, call *ast.CallExpr, lit *ast.CompositeLit) bool {
+	idx := -1
+	for i, a := range call.Args {
+		if a.Pos() <= lit.Pos() && lit.End() <= a.End() {
+			idx = i
+		}
+	}
+	if idx < 0 || cal.Sig == nil || idx >= cal.Sig.Params().Len() || cal.Sig.Variadic() {
+		return true
+	}
+	p := cal.Sig.Params().At(idx)
+	mentions := func(e ast.Expr) bool {
+		found := false
+		ast.Inspect(e, func(n ast.Node) bool {
+			if id, ok := n.(*ast.Ident); ok && m.Info.ObjectOf(id) == types.Object(p) {
+				found = true
+			}
+			return !found
+		})
+		return found
+	}
+	retains := false
+	core.InspectNoLits(cal.Body, func(n ast.Node) bool {
+		switch x := n.(type) {
+		case *ast.AssignStmt:
+			for i, l := range x.Lhs {
+				if _, isIdent := ast.Unparen(l).(*ast.Ident); isIdent {
+					continue
+				}
+				if i < len(x.Rhs) && mentions(x.Rhs[i]) {
+					// storing a pointer-typed part of the parameter somewhere that outlives the call
+					if t := m.Info.TypeOf(x.Rhs[i]); t != nil {
+						switch t.Underlying().(type) {
+						case *types.Pointer, *types.Struct, *types.Slice, *types.Map, *types.Interface:
+							retains = true
+						}
+					}
+				}
+			}
+		case *ast.ReturnStmt:
+			for _, r := range x.Results {
+				if mentions(r) {
+					if t := m.Info.TypeOf(r); t != nil {
+						switch t.Underlying().(type) {
+						case *types.Pointer, *types.Struct, *types.Slice, *types.Map, *types.Interface:
+							retains = true
+						}
+					}
+				}
+			}
+		case *ast.KeyValueExpr:
+			if mentions(x.Value) {
+				retains = true
+			}
+		case *ast.CallExpr:
+			// passing the bundle itself on: follow one level
+			for j, a := range x.Args {
+				if id := identOf(a); id != nil && m.Info.ObjectOf(id) == types.Object(p) {
+					if _, c2, _ := m.Callee(x); c2 == nil || c2.Body == nil || c2 == cal {
+						retains = true
+					} else {
+						_ = j
+						retains = retains || retainsIdentParam(m, c2, j)
+					}
+				}
+			}
+		}
+		return true
+	})
+	return retains
+}
+
+// retainsIdentParam: one more level of retainsParamOf for a parameter passed on unchanged.
+func retainsIdentParam(m *core.Model, cal *core.Func, idx int) bool {
+	if cal.Sig == nil || idx >= cal.Sig.Params().Len() {
+		return true
+	}
+	p := cal.Sig.Params().At(idx)
+	retains := false
+	core.InspectNoLits(cal.Body, func(n ast.Node) bool {
+		switch x := n.(type) {
+		case *ast.AssignStmt:
+			for i, l := range x.Lhs {
+				if _, isIdent := ast.Unparen(l).(*ast.Ident); isIdent || i >= len(x.Rhs) {
+					continue
+				}
+				ast.Inspect(x.Rhs[i], func(y ast.Node) bool {
+					if id, ok := y.(*ast.Ident); ok && m.Info.ObjectOf(id) == types.Object(p) {
+						if t := m.Info.TypeOf(x.Rhs[i]); t != nil {
+							switch t.Underlying().(type) {
+							case *types.Pointer, *types.Struct, *types.Slice, *types.Map, *types.Interface:
+								retains = true
+							}
+						}
+					}
+					return true
+				})
+			}
+		case *ast.ReturnStmt, *ast.KeyValueExpr:
+			ast.Inspect(n, func(y ast.Node) bool {
+				if id, ok := y.(*ast.Ident); ok && m.Info.ObjectOf(id) == types.Object(p) {
+					retains = true
+				}
+				return true
+			})
+		case *ast.CallExpr:
+			for _, a := range x.Args {
+				if id := identOf(a); id != nil && m.Info.ObjectOf(id) == types.Object(p) {
+					retains = true
+				}
+			}
+		}
+		return true
+	})
+	return retains
+}
+
 // c14r6: typed mappers, filters, queries and observers keep pointers to elements of per-component slices of the
 // storage (`&storage.components[id]`) for their whole life. Such a slice must never be reallocated: it is allocated
 // once with the capacity of the component limit (the number of mask bits, which bounds the number of registered
@@ -864,8 +984,35 @@ func c14r6(c *core.Ctx) {
 		return ""
 	}
 	for _, f := range m.AllFuncs() {
+		// struct literals that are built only to be handed to a call (a bundle of arguments such as
+		// cell{column: &t.columns[i], row: r}) live for the duration of that call and keep nothing
+		transient := map[*ast.CompositeLit]bool{}
 		core.InspectNoLits(f.Body, func(n ast.Node) bool {
+			if call, ok := n.(*ast.CallExpr); ok && !m.IsBuiltin(call, "append") {
+				for _, a := range call.Args {
+					a = ast.Unparen(a)
+					if u, ok := a.(*ast.UnaryExpr); ok && u.Op == token.AND {
+						a = ast.Unparen(u.X)
+					}
+					if cl, ok := a.(*ast.CompositeLit); ok {
+						if _, cal, _ := m.Callee(call); cal != nil && cal.Body != nil && !retainsParamOf(m, cal, call, cl) {
+							transient[cl] = true
+						}
+					}
+				}
+			}
+			return true
+		})
+		var lits []*ast.CompositeLit
+		ast.Inspect(f.Body, func(n ast.Node) bool {
+			if n == nil {
+				return true
+			}
 			switch x := n.(type) {
+			case *ast.FuncLit:
+				return false
+			case *ast.CompositeLit:
+				lits = append(lits, x)
 			case *ast.AssignStmt:
 				if len(x.Lhs) != len(x.Rhs) {
 					return true
@@ -880,7 +1027,16 @@ func c14r6(c *core.Ctx) {
 				}
 			case *ast.KeyValueExpr:
 				if k := addrOfElem(x.Value); k != "" {
-					pinned[k] = f.Name + " at " + c.At(x.Pos())
+					// the innermost literal that contains this element
+					var owner *ast.CompositeLit
+					for _, cl := range lits {
+						if cl.Pos() <= x.Pos() && x.End() <= cl.End() {
+							owner = cl
+						}
+					}
+					if owner == nil || !transient[owner] {
+						pinned[k] = f.Name + " at " + c.At(x.Pos())
+					}
 				}
 			}
 			return true
